@@ -133,30 +133,33 @@ theorem no_decrease_on_ack (s : Sender) (pn : Int) (b prior : Nat) (t : Int) :
 /-! ### (2') the glue: what sent_packet_handler.go reports to the controller -/
 
 /-- Every congestion event `ReceivedAck` raises is either the ECN-CE event — reported for the ACK
-frame's LARGEST ACKNOWLEDGED packet, with 0 lost bytes — or a loss event carrying the number of a
-packet that loss detection declared lost. -/
-theorem glue_congestion_event_packet (g : Glue) (ranges : List (Int × Int)) (congested : Bool) (lost : List Int) :
-    ∀ c ∈ g.ackCalls ranges congested lost, ∀ pn b p, c = Call.cong pn b p →
-      (congested = true ∧ pn = largestOf ranges ∧ b = 0) ∨ pn ∈ lost :=
-  ackCalls_cong g ranges congested lost
+frame's LARGEST ACKNOWLEDGED packet, with 0 lost bytes — or a loss event carrying the number and size
+of an outstanding packet (ack-eliciting, no Path MTU probe, no path probe) that loss detection
+removed. -/
+theorem glue_congestion_event_packet (g : Glue) (ranges : List (Int × Int)) (congested : Bool) (gone : List (Nat × Int)) (sp : Nat) :
+    ∀ c ∈ g.ackCalls ranges congested gone sp, ∀ pn b p, c = Call.cong pn b p →
+      (congested = true ∧ pn = largestOf ranges ∧ b = 0) ∨
+      ∃ q ∈ g.out, q.outstanding = true ∧ q.key ∈ gone ∧ q.pn = pn ∧ q.size = b :=
+  ackCalls_cong g ranges congested gone sp
 
-/-- Once per window, through the handler: an ACK frame that acknowledges and reports lost only
-packets at or below the cut-back mark (packets of the flight that was already reduced: the mark is
-the largest ack-eliciting packet sent when the window was cut) does not shrink the window again,
-whether or not it carries further CE marks, and leaves the mark in place. -/
-theorem glue_ack_once_per_window (g : Glue) (ranges : List (Int × Int)) (congested : Bool) (lost tracked : List Int)
+/-- Once per window, through the handler: an ACK frame (in any packet number space) that acknowledges
+and reports lost only packets at or below the cut-back mark (packets of the flight that was already
+reduced: the mark is the largest ack-eliciting packet sent when the window was cut) does not shrink
+the window again, whether or not it carries further CE marks, and leaves the mark in place. -/
+theorem glue_ack_once_per_window (g : Glue) (ranges : List (Int × Int)) (congested : Bool) (gone : List (Nat × Int))
+    (sp : Nat) (ph : List Int)
     (hce : congested = true → largestOf ranges ≤ g.s.lastCutback)
-    (hl : ∀ pn ∈ lost, pn ≤ g.s.lastCutback) :
-    g.s.cwnd ≤ (g.ack ranges congested lost tracked).1.s.cwnd ∧
-    (g.ack ranges congested lost tracked).1.s.lastCutback = g.s.lastCutback :=
-  ack_old_window g ranges congested lost tracked hce hl
+    (hl : ∀ k ∈ gone, k.2 ≤ g.s.lastCutback) :
+    g.s.cwnd ≤ (g.ack ranges congested gone sp ph).1.s.cwnd ∧
+    (g.ack ranges congested gone sp ph).1.s.lastCutback = g.s.lastCutback :=
+  ack_old_window g ranges congested gone sp ph hce hl
 
 /-- … and the same for losses declared by the loss timer -/
-theorem glue_timeout_once_per_window (g : Glue) (lost tracked : List Int)
-    (hl : ∀ pn ∈ lost, pn ≤ g.s.lastCutback) :
-    g.s.cwnd ≤ (g.timeout lost tracked).1.s.cwnd ∧
-    (g.timeout lost tracked).1.s.lastCutback = g.s.lastCutback :=
-  timeout_old_window g lost tracked hl
+theorem glue_timeout_once_per_window (g : Glue) (gone : List (Nat × Int)) (ph : List Int)
+    (hl : ∀ k ∈ gone, k.2 ≤ g.s.lastCutback) :
+    g.s.cwnd ≤ (g.timeout gone ph).1.s.cwnd ∧
+    (g.timeout gone ph).1.s.lastCutback = g.s.lastCutback :=
+  timeout_old_window g gone ph hl
 
 /-- Why the packet number matters (the variant seeded as C20-r2s2): a flight of ten packets, the CE
 mark on packet 1 cuts the window once (38400 → 26880, mark 9); three more packets are sent; a CE
@@ -164,10 +167,10 @@ mark on packet 2 of the old flight is ignored when reported for the largest ACKE
 but cuts the window a second time (→ 18816) when reported for the largest SENT packet (12 > 9). -/
 theorem glue_wrong_packet_number_witness :
     let g1 := Glue.sendMany { s := Sender.new 1200 Rtt.default } 1000 1200 [0, 1, 2, 3, 4, 5, 6, 7, 8, 9]
-    let g2 := (g1.ack [(0, 1)] true [] [2, 3, 4, 5, 6, 7, 8, 9]).1
+    let g2 := (g1.ack [(0, 1)] true []).1
     let g3 := g2.sendMany 1000 1200 [10, 11, 12]
     g1.s.cwnd = 38400 ∧ g2.s.cwnd = 26880 ∧ g2.s.lastCutback = 9 ∧
-    (g3.ack [(0, 2)] true [] [3, 4, 5, 6, 7, 8, 9, 10, 11, 12]).1.s.cwnd = 26880 ∧
+    (g3.ack [(0, 2)] true []).1.s.cwnd = 26880 ∧
     (g3.apply (g3.ackCallsWrong [(0, 2)] true [])).s.cwnd = 18816 := by decide
 
 /-! ### (3) growth -/
